@@ -674,9 +674,19 @@ theorem flush_FE_init (fn : FastNet W) {s : FState W} (h : Inv fn s) : FE fn (fl
       rw [if_pos (by omega)]
   · simp only [zeroFrom, getW_map_range, getW_replicate_zero, h.lenP]
     split
-    · rw [if_pos (by simp only [FastNet.nSensor] at hi; omega)]
+    · rw [if_pos (Nat.zero_le i)]
     · rfl
   · simp only [getW_replicate_zero]
     exact h.last i hi
+
+/-- after repair 1a387d5 `Flush` restores the WHOLE processing array of the fresh solver (bias cells included) -/
+theorem flush_processing_init (fn : FastNet W) {s : FState W} (hl : s.processing.length = fn.nTotal) :
+    (flush fn s).1.processing = (init fn).processing := by
+  unfold flush init
+  simp only [zeroFrom, hl]
+  apply List.ext_getElem
+  · simp
+  · intro i h1 h2
+    simp
 
 end GoNeat.Fast
